@@ -58,6 +58,7 @@ func implSeq(args []string) string {
 	}
 	var calls []*pend
 	closed := false
+	pendingFrags := 0 // s:f tokens seen since the last response: that response goes out in so many sub-packages
 	takeFrame := func(d time.Duration) bool {
 		f, ok, _ := t.Next(d)
 		if !ok {
@@ -88,10 +89,20 @@ func implSeq(args []string) string {
 			switch m[0] {
 			case "o":
 				t.Send(0x0002, nil)
+			case "f":
+				pendingFrags++
 			case "r":
 				typ, _ := strconv.Atoi(m[1])
 				echo, _ := strconv.Atoi(m[2])
-				t.Send(uint16(typ), RespBody(uint16(typ), uint16(echo), 0x8103))
+				if pendingFrags > 0 {
+					pieces := SplitBody(LongRespBody(uint16(typ), uint16(echo), 0x8103, pendingFrags > 2), pendingFrags)
+					for i, pc := range pieces {
+						t.SendRaw(TSubFrame(uint16(typ), t.Phone, t.NextSerial(), uint16(len(pieces)), uint16(i+1), pc))
+					}
+					pendingFrags = 0
+				} else {
+					t.Send(uint16(typ), RespBody(uint16(typ), uint16(echo), 0x8103))
+				}
 			case "b":
 				typ, _ := strconv.Atoi(m[1])
 				t.Send(uint16(typ), []byte{1})
@@ -256,7 +267,23 @@ func (g *seqGen) script(n int) {
 			}
 			j := idx[g.rng.Intn(len(idx))]
 			o := g.out[j]
-			g.add(fmt.Sprintf("s:r.%d.%d", rtypes[g.rng.Intn(len(rtypes))], o.serial))
+			rt := rtypes[g.rng.Intn(len(rtypes))]
+			if g.rng.Intn(4) == 0 { // the response arrives in 2..4 sub-packages: each is taken and dropped, then the merged one
+				k := 2 + g.rng.Intn(3)
+				if k > 2 {
+					rt = []int{0x1205, 0x0805, 0x0104}[g.rng.Intn(3)] // long bodies (3+ packets on the wire)
+				}
+				n := len(SplitBody(LongRespBody(uint16(rt), uint16(o.serial), 0x8103, k > 2), k))
+				for q := 0; q < n; q++ {
+					g.add("s:f")
+					g.rd()
+					g.add("wm:0:1")
+					g.ts++
+				}
+				g.ts-- // the merged message shares the last packet
+				g.what["fragmented-response"] = true
+			}
+			g.add(fmt.Sprintf("s:r.%d.%d", rt, o.serial))
 			g.rd()
 			g.add("wm:0:1", fmt.Sprintf("+r:%d", o.id))
 			g.ts++
@@ -408,7 +435,7 @@ func replayBatch(par int, jobs []string) string {
 }
 
 func c12(c *Ctx) {
-	c.Rule = "sequential scripts (wseq): random scripts of heartbeats, commands (7 command ids + 0x9003), responses of the 5 echoing types in any order, duplicates, unknown serials, unparsable bodies, 0x1003, timeouts, disconnect, executed step by step on a live server and compared token by token with the model; concurrent scenarios (wexp): 1..8 callers with timeouts 60-600 ms, none, and 0 = the 3 s default, against a scripted terminal (answers delayed/late/twice/unknown/unparsable/never, 5-8 answers in one TCP segment, heartbeats and location reports in between, serial wrap at 65535, close/RST), the recorded history must be explained by a schedule of the model and pass the direct oracle; the server runs in child processes (a crash is an observation); a case is non-trivial when it contains at least one command written to the terminal; distinct = distinct request lines"
+	c.Rule = "sequential scripts (wseq): random scripts of heartbeats, commands (7 command ids + 0x9003), responses of the 5 echoing types in any order, duplicates, unknown serials, unparsable bodies, 0x1003, timeouts, disconnect, executed step by step on a live server and compared token by token with the model; concurrent scenarios (wexp): 1..8 callers with timeouts 60-600 ms, none, and 0 = the 3 s default, against a scripted terminal (answers delayed/late/twice/unknown/unparsable/never/in 2-4 sub-packages (long 0x1205 0x0805 0x0104 and short bodies cut up, a heartbeat in between and after), 5-8 answers in one TCP segment, heartbeats and location reports in between, serial wrap at 65535, close/RST), the recorded history must be explained by a schedule of the model and pass the direct oracle; the server runs in child processes (a crash is an observation); a case is non-trivial when it contains at least one command written to the terminal; distinct = distinct request lines"
 	// ---- jobs
 	nseq := 300
 	if !c.Quick() {
@@ -426,7 +453,7 @@ func c12(c *Ctx) {
 		g.script(6 + g.rng.Intn(14))
 		jobs = append(jobs, jobT{line: "op wseq 0 " + strings.Join(g.toks, " "), what: g.what})
 	}
-	kinds := []string{"burst", "burst", "order", "late", "dup", "unknown", "bad", "never", "mixed", "mixed", "attr", "notmo", "prejoin",
+	kinds := []string{"frag", "frag", "burst", "burst", "order", "late", "dup", "unknown", "bad", "never", "mixed", "mixed", "attr", "notmo", "prejoin",
 		"close-outstanding", "close-afterresp", "close-queued"}
 	per := 60
 	if !c.Quick() {
